@@ -47,6 +47,8 @@ class World:
             return False, "bool", None
         if kind == "ilit":
             return 2, "int", None
+        if kind == "ilit0":
+            return 0, "int", None
         if kind == "barr":
             vs = [s.bool_var() for _ in range(_size(shape))]
             return (BoolArray1D(vs) if len(shape) == 1 else BoolArray2D(vs, shape)), "bool", shape
@@ -56,7 +58,7 @@ class World:
         raise ValueError(kind)
 
 
-SCALARS = ["bexpr", "iexpr", "bcomp", "icomp", "blit", "blit0", "ilit"]
+SCALARS = ["bexpr", "iexpr", "bcomp", "icomp", "blit", "blit0", "ilit", "ilit0"]
 ARRS = ["barr", "iarr"]
 
 BIN = {
@@ -419,7 +421,7 @@ def all_cases(tier):
                 for kb in SCALARS + ARRS:
                     if ka in SCALARS and kb in SCALARS and not form.startswith("then"):
                         continue
-                    if ka in ("blit", "blit0", "ilit") and form == "then_m":
+                    if ka in ("blit", "blit0", "ilit", "ilit0") and form == "then_m":
                         continue
                     if ka in SCALARS and kb in SCALARS and shape != SHAPES[0]:
                         continue
